@@ -2,7 +2,8 @@
    Statements only; proofs are in Proofs/ClusterProofs.v (and Proofs/SemilatticeFold.v). *)
 From stdpp Require Import gmap.
 From RV Require Import Lib.Hex Model.Crdt Model.ShardState Model.Cluster Proofs.ShardStateProofs
-  Proofs.SemilatticeFold Proofs.ClusterProofs Proofs.ServeProofs Proofs.UniqueStamps Proofs.ClosedSec.
+  Proofs.SemilatticeFold Proofs.ClusterProofs Proofs.ServeProofs Proofs.UniqueStamps Proofs.ClosedSec
+  Proofs.RestartProofs.
 
 (* Strong eventual consistency, algebraic core: on a class closed under an associative,
    commutative, idempotent merge, folding two sequences with the same SET of elements (any
@@ -101,6 +102,62 @@ Print Assumptions C06_serve_eq_state.
 Example C06_serve_nonvacuous : valid_run ex_K (cluster_init 3) [] ex_serve_evs.
 Proof. exact ex_serve_valid. Qed.
 Print Assumptions C06_serve_nonvacuous.
+
+(* ---------- crashes and restarts ---------- *)
+(* [rrun] extends the runs with RRestart i: node i loses its executor, its replication state
+   and its clock, and replays the deltas it emitted itself (WAL replay through
+   apply_remote_deltas); what it had received comes back through ordinary deliveries.  A
+   restart makes a node's clock go back, so "no overflow" is assumed of every step. *)
+
+(* Convergence, closed system, with restarts: two nodes that have incorporated the same SET of
+   deltas for a key hold the same replicated value for it, whatever crashed in between. *)
+Theorem C06_sec_closed_restart : forall (K : list N -> N),
+  (forall k, K k = 0%N \/ K k = 5%N) ->
+  forall n evs i j ni nj k,
+  valid_rrun K (cluster_init n) [] evs -> rrun_no_ovf (cluster_init n) [] evs ->
+  let c := (rrun (cluster_init n) [] evs).1 in
+  c !! i = Some ni -> c !! j = Some nj ->
+  same_set (hist_of ni k) (hist_of nj k) ->
+  sh_keys (n_sh ni) !! k = sh_keys (n_sh nj) !! k.
+Proof. exact sec_closed_restart_lemma. Qed.
+Print Assumptions C06_sec_closed_restart.
+
+(* Stamps stay unique across crashes: no register stamp is ever issued twice in a cluster,
+   also by a node that restarted with its clock at zero ... *)
+Theorem C06_unique_stamps_restart : forall (K : list N -> N) n evs,
+  valid_rrun K (cluster_init n) [] evs -> rrun_no_ovf (cluster_init n) [] evs ->
+  let log := (rrun (cluster_init n) [] evs).2 in
+  forall r r', log_reg log r -> log_reg log r' -> lw_ts r = lw_ts r' -> r = r'.
+Proof. exact unique_stamps_restart_lemma. Qed.
+Print Assumptions C06_unique_stamps_restart.
+
+(* ... because the replay of its own deltas brings its clock past every stamp that carries its
+   id, wherever in the cluster that stamp lives by now. *)
+Theorem C06_restart_clock : forall (K : list N -> N) n evs i ni,
+  valid_rrun K (cluster_init n) [] evs -> rrun_no_ovf (cluster_init n) [] evs ->
+  (rrun (cluster_init n) [] evs).1 !! i = Some ni ->
+  forall r, log_reg (rrun (cluster_init n) [] evs).2 r -> st_rid (lw_ts r) = N.of_nat (S i) ->
+  (st_time (lw_ts r) <= sh_time (n_sh ni))%N.
+Proof. exact restart_clock_lemma. Qed.
+Print Assumptions C06_restart_clock.
+
+(* What a node serves is what its replication state says, also after restarts. *)
+Theorem C06_serve_eq_state_restart : forall (K : list N -> N) n evs,
+  valid_rrun K (cluster_init n) [] evs -> rrun_no_ovf (cluster_init n) [] evs ->
+  let c := (rrun (cluster_init n) [] evs).1 in
+  forall i ni, c !! i = Some ni ->
+    (forall k, serve ni k = state_says ni k) /\ n_glue_fail ni = false.
+Proof. exact serve_eq_state_restart_lemma. Qed.
+Print Assumptions C06_serve_eq_state_restart.
+
+(* Non-vacuity: a run in which two nodes write, crash, restart and write again satisfies the
+   hypotheses, and the stamps each node issues keep growing across its restart. *)
+Example C06_restart_nonvacuous :
+  (valid_rrun ex_K (cluster_init 3) [] ex_restart_evs /\ rrun_no_ovf (cluster_init 3) [] ex_restart_evs) /\
+  map (fun x : nat * list N * rvalue => (x.1.1, st_time (rv_ts x.2))) (rrun (cluster_init 3) [] ex_restart_evs).2
+  = [(0%nat, 1%N); (0%nat, 2%N); (1%nat, 2%N); (0%nat, 4%N); (1%nat, 4%N)].
+Proof. exact (conj ex_restart_valid ex_restart_stamps). Qed.
+Print Assumptions C06_restart_nonvacuous.
 
 (* Known findings: outside the class the property fails on the faithful model. *)
 Theorem C06_expiry_refuted :
